@@ -206,6 +206,56 @@ def magnitude_cases(ctx, rng, scale, add, dist, failures):
             dist['magnitude_cases'] = dist.get('magnitude_cases', 0) + 1
 
 
+def cross_head_scale_cases(ctx, dist, failures):
+    """multi-head COSINE quantizers whose heads carry sub-vectors of wildly different scale (1e-30 next to 1e16, all finite): the nearness of head h is
+    the cosine similarity of ITS sub-vector with ITS codes, so every head is normalised on its own.  Observed at the PUBLIC input (no projections:
+    codebook_dim * heads == dim) against a float64 per-head oracle; tokens whose two best similarities are closer than 1e-3 are skipped.
+    (round 11, seed C01-k: normalising the whole (h d) vector before the split flushes the small head to zero)"""
+    import torch
+    from vector_quantize_pytorch import VectorQuantize
+    scales = [1e-30, 1e-15, 1.0, 1e4, 1e16]
+    for ci in range(12 if not ctx.thorough else 48):
+        heads = [2, 3][ci % 2]
+        sep = (ci // 2) % 2 == 1
+        d, K = 4, 8
+        mode = ['eval', 'frozen', 'train'][(ci // 4) % 3]
+        torch.manual_seed(7300 + ci)
+        vq = VectorQuantize(dim=d * heads, heads=heads, codebook_dim=d, codebook_size=K, use_cosine_sim=True, separate_codebook_per_head=sep)
+        vq.train(mode != 'eval')
+        x = torch.randn(2, 6, heads, d)
+        for t in range(6):
+            for h in range(heads):
+                x[:, t, h] *= scales[(t + 2 * h + ci) % len(scales)]
+        x = x.reshape(2, 6, heads * d)
+        cb0 = vq._codebook.embed.detach().double().clone()
+        try:
+            with torch.no_grad():
+                out, idx, _ = vq(x, **({'freeze_codebook': True} if mode == 'frozen' else {}))
+        except Exception as ex:
+            failures.append({'key': f'vq-cross-head-scales:exception:{type(ex).__name__}', 'what': repr(ex)[:200], 'case': dict(heads=heads, sep=sep)})
+            continue
+        dist['cross_head_scale_calls'] = dist.get('cross_head_scale_calls', 0) + 1
+        xh = x.double().reshape(2, 6, heads, d)
+        xn = xh / xh.norm(dim=-1, keepdim=True)
+        wrong = []
+        for h in range(heads):
+            cbh = cb0[h if sep else 0]
+            cbn = cbh / cbh.norm(dim=-1, keepdim=True).clamp(min=1e-12)
+            sims = xn[:, :, h] @ cbn.T
+            top2 = sims.topk(2, dim=-1).values
+            clear = (top2[..., 0] - top2[..., 1]) > 1e-3
+            want = sims.argmax(dim=-1)
+            got = idx[..., h]
+            bad = clear & (want != got)
+            if bool(bad.any()):
+                b_, t_ = [int(v) for v in bad.nonzero()[0]]
+                wrong.append(f'head {h} token ({b_},{t_}) of scale {float(xh[b_, t_, h].norm()):.1e} (other heads {[float(xh[b_, t_, g].norm()) for g in range(heads) if g != h]}): '
+                             f'index {int(got[b_, t_])} has similarity {float(sims[b_, t_, int(got[b_, t_])]):.3f}, the best code {int(want[b_, t_])} has {float(sims[b_, t_, int(want[b_, t_])]):.3f}')
+        if wrong:
+            failures.append({'key': f'vq-cross-head-scales:not-most-similar:sep={sep}', 'what': f'VectorQuantize(cosine, heads={heads}, separate={sep}) {mode}: ' + '; '.join(wrong[:2]),
+                             'case': dict(heads=heads, sep=sep, mode=mode)})
+
+
 def make_input(rng, torch, layout, dim, exact, vq=None):
     b, n = rng.choice([(1, 1), (2, 3), (2, 5), (3, 2)])
     shape = {'seq': (b, n, dim), 'cfirst': (b, dim, n), 'image': (b, dim, 2, n)}[layout]
@@ -513,6 +563,7 @@ def correspond(ctx, scale):
     vq_cases(ctx, rng, scale, add, dist, failures)
     history_cases(ctx, rng, scale, add, dist, failures)
     magnitude_cases(ctx, rng, scale, add, dist, failures)
+    cross_head_scale_cases(ctx, dist, failures)
     residual_cases(ctx, rng, scale, add, dist, failures)
     other_cases(ctx, rng, scale, add, dist, failures)
     bad, broken = core.run_cases(ctx, 'c01', HEADER, cases, per_file=30)
